@@ -414,7 +414,7 @@ func pickW(h HSpec) int {
 
 func runOne(ctx *runCtx, h HSpec) *hResult {
 	t0 := time.Now()
-	fn := ctx.prog.Func(modPath+h.Dir, h.Fn)
+	fn := ctx.prog.Func(pkgPathOf(h.Dir), h.Fn)
 	if h.Dir == "." {
 		fn = ctx.prog.Func(strings.TrimSuffix(modPath, "/"), h.Fn)
 	}
@@ -604,8 +604,8 @@ func writeOverlay(repo, root, pkgDir, dir string, tries int) error {
 	filepath.Walk(filepath.Join(root, "harness"), func(path string, info os.FileInfo, err error) error {
 		if err == nil && info.IsDir() {
 			rel, _ := filepath.Rel(filepath.Join(root, "harness"), path)
-			if rel != "." && !strings.HasPrefix(rel, "_") {
-				hdirs = append(hdirs, rel)
+			if !strings.HasPrefix(rel, "_") {
+				hdirs = append(hdirs, rel) // "." is the repository's root package
 			}
 		}
 		return nil
@@ -643,6 +643,9 @@ func writeOverlay(repo, root, pkgDir, dir string, tries int) error {
 			continue
 		}
 		tag := strings.ReplaceAll(hd, "/", "_")
+		if hd == "." {
+			tag = "root"
+		}
 		apiPath := filepath.Join(dir, "zz_vf_api_"+tag+".go.txt")
 		os.WriteFile(apiPath, []byte(strings.Replace(string(api), "package PKG", "package "+pkg, 1)), 0o644)
 		repl[filepath.Join(repo, hd, "zz_vf_api.go")] = apiPath
@@ -744,7 +747,7 @@ func selfTest(ctx *runCtx, results []*hResult) (validated int, problems []string
 		if r == nil || r.res == nil {
 			continue
 		}
-		fn := ctx.prog.Func(modPath+r.spec.Dir, r.spec.Fn)
+		fn := ctx.prog.Func(pkgPathOf(r.spec.Dir), r.spec.Fn)
 		if fn == nil {
 			continue
 		}
@@ -884,6 +887,13 @@ func goTest(repo, dir, run, pkgDir string, env ...string) string {
 	cmd.Env = base
 	out, _ := cmd.CombinedOutput()
 	return string(out)
+}
+
+func pkgPathOf(dir string) string {
+	if dir == "." {
+		return strings.TrimSuffix(modPath, "/")
+	}
+	return modPath + dir
 }
 
 var replayMu sync.Mutex
